@@ -564,11 +564,11 @@ def probes_for(r, fam, n_members, limit):
 def run(ctx):
     r = ctx.rng
     depth = ctx.scale(3, 5)
-    n_fam = ctx.scale(70, 900)
+    n_fam = ctx.scale(170, 1800)
     cap = ctx.scale(22, 60)
     probe_limit = ctx.scale(26, 48)
-    pair_budget = ctx.scale(2600, 30000)
-    value_budget = ctx.scale(1200, 12000)
+    pair_budget = ctx.scale(5200, 48000)
+    value_budget = ctx.scale(2000, 16000)
     pool = [build(x) for x in POOL_SRC]
     mpool = [build(x) for x in MARKER_POOL_SRC]
 
@@ -658,10 +658,8 @@ def run(ctx):
                     if not E[i][k]:
                         trio = [fam[i], fam[j], fam[k]]
                         shape = None
-                        if nan[i] or nan[j] or nan[k]:
-                            shape = "F10"
-                        elif (marker_faces(fam[i].obj, fam[j].obj) or marker_faces(fam[j].obj, fam[k].obj)
-                              or marker_faces(fam[i].obj, fam[k].obj)):
+                        if (marker_faces(fam[i].obj, fam[j].obj) or marker_faces(fam[j].obj, fam[k].obj)
+                                or marker_faces(fam[i].obj, fam[k].obj)):
                             shape = "F19"
                         report("transitive", "s1 == s2 and s2 == s3 but s1 != s3", trio, shape,
                                observed="s1 == s2, s2 == s3, not s1 == s3", expected="s1 == s3")
